@@ -84,6 +84,7 @@ type zoneInfo struct {
 	trans  []int64          // DST / rule changes in [1970, 2100], unix seconds
 	names  map[string]int64 // abbreviation -> offset, only if functional over the sampled range
 	nameOK bool
+	nameOffs map[string][]int64 // every offset seen for an abbreviation
 }
 
 var zones []*zoneInfo
@@ -104,6 +105,9 @@ func loadZones() {
 	cands := []struct{ name, class string }{
 		{"", "utc"}, {"utc", "utc"}, {"Etc/GMT+5", "fixed"}, {"Etc/GMT-14", "fixed"}, {"Asia/Kolkata", "fixed-half-hour"},
 		{"America/New_York", "dst"}, {"Europe/Berlin", "dst"}, {"Australia/Lord_Howe", "dst-half-hour"},
+		// negative and 45-minute fractional offsets
+		{"America/St_Johns", "dst-negative-half-hour"}, {"Pacific/Marquesas", "fixed-negative-half-hour"},
+		{"America/Caracas", "historical-negative-half-hour"}, {"Asia/Kathmandu", "fixed-45-minutes"}, {"Pacific/Chatham", "dst-45-minutes"},
 	}
 	for _, c := range cands {
 		var loc *time.Location
@@ -116,7 +120,7 @@ func loadZones() {
 			}
 			loc = l
 		}
-		z := &zoneInfo{name: c.name, loc: loc, class: c.class, names: map[string]int64{}, nameOK: true}
+		z := &zoneInfo{name: c.name, loc: loc, class: c.class, names: map[string]int64{}, nameOK: true, nameOffs: map[string][]int64{}}
 		if c.class != "utc" {
 			_, prev := offsetAt(loc, t1970)
 			for u := t1970; u < t2101; u += 86400 {
@@ -125,6 +129,7 @@ func loadZones() {
 					z.nameOK = false
 				}
 				z.names[n] = o
+				z.addNameOff(n, o)
 				if o != prev {
 					lo, hi := u-86400, u // offset(lo) = prev, offset(hi) = o
 					for hi-lo > 1 {
@@ -147,12 +152,44 @@ func loadZones() {
 						z.nameOK = false
 					}
 					z.names[n] = o
+					z.addNameOff(n, o)
 				}
 			}
 		}
 		zones = append(zones, z)
 		zoneByName[c.name] = z
 	}
+}
+
+func (z *zoneInfo) addNameOff(n string, o int64) {
+	for _, x := range z.nameOffs[n] {
+		if x == o {
+			return
+		}
+	}
+	z.nameOffs[n] = append(z.nameOffs[n], o)
+}
+
+// Location.lookupName, from the outside: the offset of the abbreviation that is in force at wall-offset
+// (Go's first pass); with several or no such candidates the answer depends on the order of the zone
+// table and is reported as not determined
+func (z *zoneInfo) resolveName(abbr string, wall int64) (off int64, found, determined bool) {
+	offs := z.nameOffs[abbr]
+	if len(offs) == 0 {
+		return 0, false, true
+	}
+	var valid []int64
+	for _, o := range offs {
+		if n, oo := offsetAt(z.loc, wall-o); n == abbr && oo == o {
+			valid = append(valid, o)
+		}
+	}
+	if len(valid) == 1 {
+		return valid[0], true, true
+	}
+	// none in force (Go falls back to the first entry of that name in the zone table, which may be a
+	// historical one never sampled here) or several: not determined
+	return 0, false, false
 }
 
 func zoneOf(name string) *zoneInfo {
@@ -167,7 +204,7 @@ func zoneOf(name string) *zoneInfo {
 	if err != nil {
 		return nil
 	}
-	return &zoneInfo{name: name, loc: l, class: "other", names: map[string]int64{}, nameOK: false}
+	return &zoneInfo{name: name, loc: l, class: "other", names: map[string]int64{}, nameOK: false, nameOffs: map[string][]int64{}}
 }
 
 // ---------------------------------------------------------------- running the implementation
@@ -468,29 +505,65 @@ func c18Term(in c18In, implOut string) (string, c18Out, []string, bool) {
 	return coq, o, tags, nontrivial
 }
 
-// zone oracle for reading a time string in a location: the abbreviation table of the location, the offset the
-// location's rules give to the wall clock Go reads from the string (as UTC), and the offset at the resulting instant
-func timeOracle(z *zoneInfo, layout, str string) (names map[string]int64, locOff, finOff int64, ok bool) {
+// zone oracle for reading a time string in a location: the offset of the abbreviation in the string (if the
+// location knows it), the offset the location's rules give to the wall clock Go reads from the string (as UTC),
+// and the offset at the resulting instant
+func timeOracleD(z *zoneInfo, layout, str string) (names map[string]int64, locOff, finOff int64, ok, determined bool) {
 	names = map[string]int64{}
-	if z.nameOK {
-		names = z.names
-	}
 	w, err := time.ParseInLocation(layout, str, time.UTC)
 	if err != nil {
-		return names, 0, 0, false
+		return names, 0, 0, false, true
 	}
 	abbr, woff := w.Zone()
 	wall := w.Unix() + int64(woff)
 	exp := time.Date(w.Year(), w.Month(), w.Day(), w.Hour(), w.Minute(), w.Second(), 0, z.loc)
 	locOff = wall - exp.Unix()
 	_, finOff = offsetAt(z.loc, exp.Unix())
-	if no, ok := names[abbr]; ok && abbr != "" && abbr != "UTC" {
-		_, finOff = offsetAt(z.loc, wall-no)
+	determined = true
+	if abbr != "" && abbr != "UTC" && woff == 0 {
+		no, found, det := z.resolveName(abbr, wall)
+		determined = det
+		if found {
+			names[abbr] = no
+			_, finOff = offsetAt(z.loc, wall-no)
+		}
 	}
-	return names, locOff, finOff, true
+	return names, locOff, finOff, true, determined
+}
+
+func timeOracle(z *zoneInfo, layout, str string) (map[string]int64, int64, int64, bool) {
+	n, l, f, ok, _ := timeOracleD(z, layout, str)
+	return n, l, f, ok
+}
+
+// false when the abbreviation look-up for this value cannot be told from outside (the case then runs in utc)
+func oracleDetermined(in c18In, arg string) bool {
+	z := zoneOf(in.Tz)
+	if z == nil || z.class == "utc" {
+		return true
+	}
+	layout := layoutOf(in.Fmt)
+	switch in.Kind {
+	case "time", "bucket", "reformat":
+		_, _, _, _, det := timeOracleD(z, layout, arg)
+		return det
+	case "roundtrip":
+		if u, err := strconv.ParseInt(arg, 10, 64); err == nil {
+			_, _, _, _, det := timeOracleD(z, layout, time.Unix(u, 0).In(z.loc).Format(layout))
+			return det
+		}
+	}
+	return true
 }
 
 func c18Case(in c18In) Case {
+	loadZones()
+	for _, a := range append([]string{in.Arg}, in.Seq...) {
+		if !oracleDetermined(in, a) {
+			in.Tz, in.Class = "", in.Class+"(abbreviation-lookup-not-determined:utc)"
+			break
+		}
+	}
 	kb, _ := json.Marshal(in)
 	if len(in.Seq) == 0 {
 		coq, o, tags, nontrivial := c18Term(in, c18Impl(in))
@@ -717,6 +790,91 @@ func genTimeString(r *Rng, formats []string) (string, string, *zoneInfo, string)
 		tm = time.Unix(t, int64(Pick(r, []int{500000000, 1, 999999999, 123456789, 120000000, 1000}))).In(z.loc)
 	}
 	return tm.Format(layout), f, z, cl
+}
+
+// ---- literal timestamps with an explicit numeric offset: every sign x minute part x a spread of hours ----
+var offsetLayouts = []string{"RFC3339", "RFC3339N", "RFC1123Z", "RFC822Z", "RUBY", "NGINX"}
+
+// what Go prints for the instant at that offset; a zero offset can also be written with a minus sign
+func literalStamp(t int64, off int, f string, negZero bool) string {
+	s := time.Unix(t, 0).In(time.FixedZone("", off)).Format(layoutOf(f))
+	if off == 0 && negZero {
+		switch {
+		case strings.HasSuffix(s, "Z"):
+			s = s[:len(s)-1] + "-00:00"
+		case strings.Contains(s, "+0000"):
+			s = strings.Replace(s, "+0000", "-0000", 1)
+		case strings.Contains(s, "+00:00"):
+			s = strings.Replace(s, "+00:00", "-00:00", 1)
+		}
+	}
+	return s
+}
+
+func offsetClass(off int) string {
+	sign := "positive"
+	if off < 0 {
+		sign, off = "negative", -off
+	} else if off == 0 {
+		sign = "zero"
+	}
+	if m := off / 60 % 60; m%15 == 0 {
+		return fmt.Sprintf("offset-%s-min%02d", sign, m)
+	}
+	return "offset-" + sign + "-other-minute"
+}
+
+func offsetCase(kind string, t int64, off int, f string, z *zoneInfo, negZero bool) Case {
+	in := c18In{Kind: kind, Arg: literalStamp(t, off, f, negZero), Fmt: f, Tz: z.name, Class: "explicit-offset"}
+	if kind == "bucket" {
+		in.Sub = "minutes"
+	}
+	if kind == "reformat" {
+		in.Sub = "RFC3339"
+	}
+	c := c18Case(in)
+	c.Tags = append(c.Tags, offsetClass(off))
+	if off == 0 && negZero {
+		c.Tags = append(c.Tags, "offset-minus-zero")
+	}
+	return c
+}
+
+// every offset layout x both signs x minutes {00,15,30,45} x hours {0,3,5,9,12,14} (+ "-00:00"), through time / buckettime / reformat
+func c18OffsetExhaustive() []Case {
+	loadZones()
+	buildBreakpoints()
+	var cases []Case
+	k := 0
+	for _, f := range offsetLayouts {
+		for _, sign := range []int{1, -1} {
+			for _, hh := range []int{0, 3, 5, 9, 12, 14} {
+				for _, mm := range []int{0, 15, 30, 45} {
+					off := sign * (hh*3600 + mm*60)
+					t := breakpoints[(k*131)%len(breakpoints)].t + int64(k%7) - 3
+					z := zones[k%len(zones)]
+					kind := []string{"time", "time", "bucket", "time", "reformat"}[k%5]
+					cases = append(cases, offsetCase(kind, t, off, f, z, sign < 0))
+					k++
+				}
+			}
+		}
+	}
+	return cases
+}
+
+// any whole-minute offset within +-24 h (the round-trip theorems quantify over all of them)
+func genOffsetCase(r *Rng) Case {
+	t, z, _ := genInstant(r)
+	off := r.Range(0, 23)*3600 + r.Range(0, 59)*60
+	if r.Chance(1, 2) {
+		off = r.Range(0, 15)*3600 + Pick(r, []int{0, 15, 30, 45})*60
+	}
+	if r.Bool() {
+		off = -off
+	}
+	kind := Pick(r, []string{"time", "time", "time", "bucket", "reformat"})
+	return offsetCase(kind, t, off, Pick(r, offsetLayouts), z, r.Bool())
 }
 
 func genTime(r *Rng) c18In {
@@ -1137,6 +1295,7 @@ func c18Gen(r *Rng, n int, tier string) []Case {
 	cases := c18Exhaustive(tier)
 	cases = append(cases, c18SeqExhaustive(tier)...)
 	cases = append(cases, c18SharedExhaustive(r.Fork())...)
+	cases = append(cases, c18OffsetExhaustive()...)
 	base := len(cases)
 	for len(cases) < base+n {
 		var in c18In
@@ -1149,6 +1308,9 @@ func c18Gen(r *Rng, n int, tier string) []Case {
 			continue
 		case x == 20:
 			cases = append(cases, genConc(r, Pick(r, allForms)))
+			continue
+		case x < 33:
+			cases = append(cases, genOffsetCase(r))
 			continue
 		}
 		switch x := r.Intn(100); {
@@ -1176,7 +1338,7 @@ func main() {
 		Header: "From Coq Require Import List NArith ZArith String.\nFrom RareV Require Import Corr.C18Case.\nImport ListNotations.\nOpen Scope N_scope. Open Scope string_scope.\n",
 		Rule: "small exhaustive scope (every month boundary of selected years x quarter; the days around every 9th (quick) / every (thorough) new year 1970..2100 x yearweek; every bucket name; every named format x every zone) " +
 			"followed by seeded random: instants = breakpoints (UTC and local month / quarter / year starts 1970..2100, ISO week-1 Mondays, Feb/Mar, every DST change of the zones) displaced by 0/±1 s, whole hours within ±48 h, random seconds within ±2 days, whole days within a week; plus extremes (year 0, 9999, 2^31); " +
-			"zones: utc, Etc/GMT+5, Etc/GMT-14, Asia/Kolkata, America/New_York, Europe/Berlin, Australia/Lord_Howe as available on the host; kinds: timeformat (all named formats, mixed case, raw layouts, bad integers), timeattr (4 attributes, bad names), " +
+			"zones: utc, Etc/GMT+5, Etc/GMT-14, Asia/Kolkata, America/New_York, Europe/Berlin, Australia/Lord_Howe, America/St_Johns (-03:30/-02:30), Pacific/Marquesas (-09:30), America/Caracas (-04:30 in 2007..2016), Asia/Kathmandu (+05:45), Pacific/Chatham (+12:45/+13:45) as available on the host; literal timestamps with an explicit numeric offset through time / buckettime / timeformat(time): every offset layout (RFC3339, RFC3339N, RFC1123Z, RFC822Z, RUBY, NGINX) x both signs x minutes {00,15,30,45} x hours {0,3,5,9,12,14} incl. -00:00 every run, and 6% of the random cases with any whole-minute offset within +-24 h; kinds: timeformat (all named formats, mixed case, raw layouts, bad integers), timeattr (4 attributes, bad names), " +
 			"time with explicit format (strings printed by Go for the instant in the zone, 1/4 mutated: digit, truncation, trailing text, byte, space, fractional second, case, range), buckettime (all bucket names and abbreviations), duration (printed by durationformat, component strings, limits, malformed), durationformat (boundaries, overflow, bad integers). " +
 			"sequences (state inside ONE compiled expression reused across instants): {timeformat {0} F Z}, {timeattr {0} A Z}, {buckettime {0} B F Z}, {time {0} F Z} compiled once and evaluated second by second over t-3..t+3 (sometimes up to +-8) around a breakpoint, ascending and descending — exhaustively for every 2020/2021 (+ first/last) DST change of every zone and local new-year / quarter / month starts, and 8% of the random cases; every output of the sequence is compared with the model; a sequence is one case. " +
 			"the value of a compiled expression on a context must depend on that context alone: (a) mixed sequences — each of the ten forms (timeformat, timeattr, time, buckettime, duration, durationformat, {time {timeformat ..}}, {timeformat {time ..}}, {duration {durationformat ..}}, {durationformat {duration ..}}) compiled once and evaluated on the empty context first, then values with repeats, an unparseable value and the empty context again, every step compared with the model value of that context alone; (b) concurrent cases — one compiled expression shared by 4..8 goroutines released by a start barrier, each evaluating its own 10 values 300 times (3000 evaluations per goroutine), every result compared with the value of its context on a freshly compiled expression evaluated alone; the first differing result (if any) is what the model is compared with; every form every run (21 fixed concurrent cases, 20 mixed sequences) plus 4% / 0.5% of the random cases. " +
